@@ -18,7 +18,9 @@ EXPLANATION = (
     "first index of every key seen more than once, brief mode compares Reaction(reactants, products) (multiplicity kept), string modes format each "
     "reaction with names in a total (name) order -- and, whatever the shape of the table, no entry is overwritten for a key already present; "
     "R4 remove_reaction(list[int]) keeps exactly the positions not listed, and callers that remove duplicates pass the position list; R5 the "
-    "comparison methods (Reaction.__eq__/__hash__/__format__, Species.__eq__/__hash__/__lt__) write nothing into the instance and are not memoised.")
+    "comparison methods (Reaction.__eq__/__hash__/__format__, Species.__eq__/__hash__/__lt__) write nothing into the instance and are not memoised; "
+    "R7 Species.__lt__ (the order sorted() lists the formatted names in) compares a key that contains the name itself on both sides, so that two species "
+    "with different names never tie and permuted reactants / products format identically.")
 ASSUMPTIONS = [
     "the result on a given list and transitivity effects of the UNKNOWN wildcard in Reaction.__eq__ are not decided",
     "equal species names were parsed with equal prefix/symbol arguments",
@@ -38,6 +40,7 @@ def check(ctx):
     _r4(ctx, pkg)
     _r4_callers(ctx, pkg)
     _r5(ctx, pkg)
+    _r7(ctx, pkg)
     # the duplicate report is computed from the reactions the network holds NOW: no memo of comparison keys survives an edit
     # (shared with C14.R6, which covers every method of Network that keeps a memo of its own)
     from .c14 import _r6 as live_views
@@ -715,6 +718,94 @@ def _r5(ctx, pkg):
     ctx.floor("R5", "comparison methods", n, 6)
 
 
+def _r7(ctx, pkg):
+    """The string modes compare the formatted reactions, and `Reaction.__format__` makes that text independent of the order of
+    the reactants / products by listing the names in `sorted()` order -- the order `Species.__lt__` defines.  That text is canonical
+    only if two species with DIFFERENT names never tie (a tie keeps the input order: `H + #H` and `#H + H` format differently and
+    the permuted copy is entered as a new key).  Necessary and checked: the key `__lt__` compares contains the name itself, on
+    both sides, on every path (directly, as a component of a tuple, or through a property of the class that returns it)."""
+    SF = "naunet/species.py"
+    ci = pkg.cls("Species")
+    lt = ci.methods.get("__lt__")
+    K = "Species.__lt__:distinct names never tie"
+    if lt is None:
+        ctx.missing("R7", K, (SF, ci.node.lineno), "Species.__lt__ vanished (sorted() of species in Reaction.__format__ depends on it)")
+        return
+    ctx.saw(SF, "Species.__lt__")
+    rx = returned_bool(lt, lambda name: pkg.resolve("Species", name)[1])
+    args = [a.arg for a in lt.args.args]
+    cmp_ = None
+    if rx is not None and len(args) == 2:
+        leaves = [x for c in dnf(rx) for x in c]
+        cands = [x for x in leaves if isinstance(x, ast.Compare) and len(x.ops) == 1 and isinstance(x.ops[0], (ast.Lt, ast.Gt))]
+        rest = [x for x in leaves if x not in cands and not (isinstance(x, ast.Call) and ast.unparse(x.func) == "isinstance")]
+        if len(cands) == 1 and not rest and len(dnf(rx)) == 1:
+            cmp_ = cands[0]
+    if cmp_ is None:
+        ctx.unrec("R7", K, (SF, lt.lineno), f"the value __lt__ returns is not one `<` comparison of two keys: {ast.unparse(rx)[:100] if rx is not None else 'not understood'}")
+        return
+    props = {m: fn for m, fn in ci.methods.items() if isinstance(fn, ast.FunctionDef) and any(ast.unparse(d) in ("property", "functools.cached_property", "cached_property") for d in fn.decorator_list)}
+
+    def has_name(e, var, depth=0, fn=None):
+        """True: the species' name ITSELF is a component of the key `e` on every path;  False: on some path it is not (another
+        attribute, a constant, a value computed from the name that drops part of it);  None: not decided (the name under a wrapper
+        such as str(..) / .lower(), a helper this rule does not follow)"""
+        def every(vals):
+            return True if vals and all(v is True for v in vals) else None if any(v is None for v in vals) else False
+        if isinstance(e, ast.Constant):
+            return False
+        if isinstance(e, ast.Attribute) and isinstance(e.value, ast.Name) and e.value.id == var:
+            if e.attr == "name":
+                return True
+            if e.attr in props and depth < 4:
+                p_ = props[e.attr]
+                rets = [r.value for r in ast.walk(p_) if isinstance(r, ast.Return) and r.value is not None]
+                return every([has_name(r, p_.args.args[0].arg, depth + 1, p_) for r in rets]) if rets else None
+            return False if e.attr not in ci.methods else None
+        if isinstance(e, ast.Name) and fn is not None and e.id != var:
+            # a local of the property: every value it is bound to
+            vals = [n.value for n in ast.walk(fn) if isinstance(n, ast.Assign) and any(isinstance(t, ast.Name) and t.id == e.id for t in n.targets)]
+            other = [n for n in ast.walk(fn) if isinstance(n, ast.Name) and n.id == e.id and isinstance(n.ctx, ast.Store)]
+            if not vals or len(other) != len(vals) or depth > 6:
+                return None
+            return every([has_name(v, var, depth + 1, None if any(isinstance(x, ast.Name) and x.id == e.id for x in ast.walk(v)) else fn) for v in vals])
+        if isinstance(e, (ast.Tuple, ast.List)):
+            vals = [has_name(x, var, depth, fn) for x in e.elts]
+            return True if any(v is True for v in vals) else None if any(v is None for v in vals) else False
+        if isinstance(e, ast.IfExp):
+            return every([has_name(e.body, var, depth, fn), has_name(e.orelse, var, depth, fn)])
+        if isinstance(e, ast.Call):
+            # str(x.name), x.name.lower(): the name under a wrapper -- not decided;  anything else computed is not the name itself
+            direct = list(e.args) + ([e.func.value] if isinstance(e.func, ast.Attribute) else [])
+            if any(isinstance(a, ast.Attribute) and isinstance(a.value, ast.Name) and a.value.id == var and a.attr == "name" for a in direct):
+                return None
+            if isinstance(e.func, ast.Attribute) and isinstance(e.func.value, ast.Name) and e.func.value.id == var:
+                return None          # a helper method of the class: not followed
+            return False
+        if not any(isinstance(n, ast.Name) and n.id == var for n in ast.walk(e)):
+            return False
+        return None
+    l, r = cmp_.left, cmp_.comparators[0]
+    sides = {}
+    for e in (l, r):
+        names = {n.id for n in ast.walk(e) if isinstance(n, ast.Name)} & set(args)
+        if len(names) == 1:
+            sides[names.pop()] = e
+    if set(sides) != set(args):
+        ctx.unrec("R7", K, (SF, cmp_.lineno), f"the comparison does not have one key per operand: {ast.unparse(cmp_)[:100]}")
+        return
+    got = {v: has_name(e, v) for v, e in sides.items()}
+    found = " ".join(ast.unparse(cmp_).split())[:120]
+    if any(x is None for x in got.values()):
+        ctx.unrec("R7", K, (SF, cmp_.lineno), f"cannot tell whether the compared key contains the name: {found}")
+    else:
+        ok = all(got.values())
+        ctx.check(ok, "R7", K, (SF, cmp_.lineno), "the order of species is decided by a key that contains the name: two species with different names never tie" if ok else
+                  "Species.__lt__ compares a key that does not contain the name: species with different names can tie (H / #H, #1H / #2H under basename and charge), sorted() "
+                  "then keeps their input order, `Reaction.__format__` prints permuted copies of a reaction differently and the string modes of find_duplicate_reaction miss them",
+                  expected="self.name < o.name (or a tuple key with the name as a component)", found=found)
+
+
 def _r4_callers(ctx, pkg, rule="R4"):
     """De-duplication removes the LATER copies: callers hand remove_reaction the position list of find_duplicate_reaction,
     not the duplicate objects (removal by object is removal by equality, which also removes the copy to keep)."""
@@ -942,4 +1033,21 @@ MUTANTS += [
     {"name": "sides-constant-one-side-only", "edits": [
         {"file": RF, "old": "    format = \"naunet\"\n", "new": "    format = \"naunet\"\n    _sides = (\"reactants\",)\n"},
         {"file": RF, "old": _RPEQ, "new": "        return all(Counter(getattr(self, side)) == Counter(getattr(o, side)) for side in self._sides)"}], "rules": ["R1"]},
+]
+
+_LT = "            return self.name < o.name\n"
+_KEYPROP = "    @property\n    def _sort_key(self):\n        return %s\n\n    def __repr__(self) -> str:\n"
+MUTANTS += [
+    {"name": "species-ordered-by-basename-and-charge", "file": "naunet/species.py", "old": _LT, "new": "            return (self.basename, self.charge) < (o.basename, o.charge)\n", "rules": ["R7"]},
+    {"name": "species-ordered-by-key-property-without-name", "edits": [
+        {"file": "naunet/species.py", "old": _LT, "new": "            return self._sort_key < o._sort_key\n"},
+        {"file": "naunet/species.py", "old": "    def __repr__(self) -> str:\n", "new": _KEYPROP % "(\"e\", -1) if self.is_electron else (self.basename, self.charge)"}], "rules": ["R7"]},
+]
+BENIGN += [
+    {"name": "species-ordered-by-tuple-key-with-name", "file": "naunet/species.py", "old": _LT, "new": "            return (self.name, self.charge) < (o.name, o.charge)\n"},
+    {"name": "species-ordered-by-key-property-returning-name", "edits": [
+        {"file": "naunet/species.py", "old": _LT, "new": "            return self._sort_key < o._sort_key\n"},
+        {"file": "naunet/species.py", "old": "    def __repr__(self) -> str:\n", "new": _KEYPROP % "self.name"}]},
+    {"name": "species-lt-guard-clause", "file": "naunet/species.py", "old": "        if isinstance(o, Species):\n            return self.name < o.name\n        return NotImplemented\n",
+     "new": "        if not isinstance(o, Species):\n            return NotImplemented\n        return o.name > self.name\n"},
 ]
